@@ -1,4 +1,4 @@
-(* K12b -- the quote-restoration step processing._substitute_original_strings (processing.py:91-203).
+(* K12b -- the quote-restoration step processing._substitute_original_strings (processing.py:94-222).
    After every rewrite the code looks at each string constant node of the NEW source (on Python 3.12 this
    includes the literal fragments of f-strings, whose source text is the bare fragment) and, when its
    spelling does not occur among the spellings the ORIGINAL source used for the same value, overwrites it
@@ -112,7 +112,7 @@ Definition restore_pick_case_ok (c : bool * list (nat * nat * bool) * list (nat 
   let '(a, os, ns, obs) := c in all_pick_ok (restore_pick a (mkOs os) (mkNs ns)) obs.
 
 (* ---------------------------------------------------------------------------------------------- *)
-(* The spelling that is WRITTEN (processing.py:186-220, after repair c664901).  The prefix letters of the most
+(* The spelling that is WRITTEN (processing.py:171-222, after repair c664901).  The prefix letters of the most
    common original spelling and of the node's own spelling are compared as sets over {b, r, f} (lower-cased
    characters before the first quote); when they differ the new prefix, in the order f r b, is pasted in front
    of the original spelling stripped of its leading brfBRF letters.  The result is used only when
@@ -211,7 +211,7 @@ Definition restore_write_case_ok
   let '(a, os, ns, adj, obs) := c in all_write_ok (restore_write a (mkWOs os) (mkWNs ns) adj) obs.
 
 (* ---------------------------------------------------------------------------------------------- *)
-(* processing._substitute_original_fstrings (processing.py:205-259): JoinedStr nodes, keyed by their
+(* processing._substitute_original_fstrings (processing.py:225-268): JoinedStr nodes, keyed by their
    ast.unparse text; no early exit; the guard on the overwritten spelling is is_valid_python ONLY.
      fo_valid / fn_valid = is_valid_python(spelling)
      fn_self             = the spelling, parsed on its own, is an f-string with that unparse key
